@@ -163,13 +163,15 @@ class ProgressBarHandler:
 
             # Check if the total has been updated. It could be that we didn't know the total number of tasks at the
             # beginning, but we do now.
-            if self.total_updated.is_set():
+            total_updated = self.total_updated.is_set()
+            if total_updated:
                 progress_bar.update_total(self.total)
                 self._send_dashboard_update(progress_bar)
                 self.total_updated.clear()
 
-            # Check if there's an actual update
-            if tasks_completed > 0 and tasks_completed == progress_bar.n:
+            # Check if there's an actual update. A new total is one: all tasks can have been shown already, in which case
+            # the bar is complete now
+            if tasks_completed > 0 and tasks_completed == progress_bar.n and not total_updated:
                 continue
 
             # Update progress bar
